@@ -143,6 +143,8 @@ pub struct Inner {
     pub schema_version: Mutex<Uuid>,
     /// ids of system-table statements prepared by the driver's control connection
     prepared_system: Mutex<HashMap<Vec<u8>, String>>,
+    /// connections on which the node has gone silent (reads but never answers, keep-alives included)
+    muted: Mutex<std::collections::HashSet<u64>>,
 }
 
 pub struct MockCluster {
@@ -221,6 +223,7 @@ impl MockCluster {
                 peers_page_size: Mutex::new(None),
                 schema_version: Mutex::new(Uuid::from_u128(0x5c4e_0001)),
                 prepared_system: Mutex::new(HashMap::new()),
+                muted: Mutex::new(std::collections::HashSet::new()),
             });
             let mut tasks = vec![];
             let mut li = 0;
@@ -319,6 +322,21 @@ impl MockCluster {
 
     pub fn live_conns(&self, node: usize) -> Vec<u64> {
         self.inner.conns.lock().unwrap().iter().filter(|(_, c)| c.node == node).map(|(id, _)| *id).collect()
+    }
+
+    /// The node stops answering on this connection (silent stall).
+    pub fn mute_conn(&self, conn: u64) {
+        self.inner.muted.lock().unwrap().insert(conn);
+    }
+
+    /// Where a held request sits: (connection id, stream id).
+    pub fn held_location(&self, hold_id: u64) -> Option<(u64, i16)> {
+        self.inner.held.lock().unwrap().get(&hold_id).copied()
+    }
+
+    /// Forgets a held request without answering it.
+    pub fn forget_held(&self, hold_id: u64) {
+        self.inner.held.lock().unwrap().remove(&hold_id);
     }
 
     pub fn set_refuse(&self, node: usize, refuse: bool) {
@@ -453,7 +471,9 @@ async fn connection(inner: Arc<Inner>, node: usize, mut stream: TcpStream, peer:
                             let seq_entry = entry(&inner, &st, LogKind::Request(frame.clone()));
                             let ctx = ReqCtx { seq: seq_entry.seq, node, conn: id, shard: st.shard, shard_aware_port: shard_aware, keyspace: st.keyspace.clone(), peer, at: seq_entry.at };
                             log_push(&inner, seq_entry);
-                            handle(&inner, &mut st, &ctx, &frame, &tx);
+                            if !inner.muted.lock().unwrap().contains(&id) {
+                                handle(&inner, &mut st, &ctx, &frame, &tx);
+                            }
                         }
                         Err(e) if e.0.starts_with("incomplete") => break,
                         Err(e) => {
